@@ -173,8 +173,8 @@ def free_ids(e, acc=None):
 # contract files
 
 CLAUSES = {'requires', 'ensures', 'panics_if', 'panics_only_if', 'throws_if', 'loop', 'mode', 'inline', 'assigns', 'uses', 'ghost', 'assume',
-           'unroll', 'after', 'at', 'note', 'pre_note', 'cover', 'opaque', 'replay', 'bounded', 'abstract', 'let', 'trusted', 'returns_struct', 'param'}
-TOP = {'func', 'js', 'pure', 'axiom', 'lemma', 'region', 'extern', 'property', 'pattern', 'table', 'site', 'const', 'sort', 'ufunc'}
+           'unroll', 'after', 'at', 'note', 'pre_note', 'cover', 'opaque', 'replay', 'bounded', 'abstract', 'let', 'trusted', 'returns_struct', 'param', 'results', 'oncall', 'induct', 'hint', 'unfold'}
+TOP = {'func', 'js', 'pure', 'axiom', 'lemma', 'region', 'extern', 'property', 'pattern', 'table', 'site', 'const', 'sort', 'ufunc', 'ghostfn'}
 
 class Clause:
     def __init__(self, kind, text, line, file):
@@ -214,6 +214,7 @@ class SpecFile:
         self.lemmas = {}
         self.externs = {}         # assumed contracts for external functions: key -> Contract
         self.consts = {}
+        self.ghostfns = {}
         self.assumption_notes = []
 
 def parse_params(s):
@@ -286,7 +287,16 @@ def parse_spec_text(text, fname, sf=None):
                 cur = None
                 last = cl if bodytxt else None
             elif word == 'axiom':
+                m3 = re.match(r'(\w+)\s*\((.*?)\)\s*:\s*(.*)$', rest, re.S)
                 m2 = re.match(r'(\w+)\s*:\s*(.*)$', rest, re.S)
+                if m3:      # parameterised definition: instantiated explicitly with `use name(args)`
+                    cur = Contract('lemma', m3.group(1), fname, ln, header=m3.group(2))
+                    cur.is_axiom = True
+                    cl = Clause('ensures', m3.group(3), ln, fname)
+                    cur.clauses.append(cl)
+                    sf.lemmas[cur.key] = cur
+                    last = cl
+                    continue
                 if not m2:
                     raise SpecError('%s:%d: bad axiom' % (fname, ln))
                 cl = Clause('axiom', m2.group(2), ln, fname)
@@ -299,6 +309,10 @@ def parse_spec_text(text, fname, sf=None):
                     raise SpecError('%s:%d: bad lemma header' % (fname, ln))
                 cur = Contract('lemma', m2.group(1), fname, ln, header=m2.group(2))
                 sf.lemmas[cur.key] = cur
+            elif word == 'ghostfn':
+                nm, ty = rest.split()
+                sf.ghostfns[nm] = ty
+                cur = None
             elif word == 'const':
                 m2 = re.match(r'(\w+)\s*=\s*(.*)$', rest)
                 sf.consts[m2.group(1)] = parse_expr(m2.group(2))
@@ -321,9 +335,25 @@ def parse_spec_text(text, fname, sf=None):
         raise SpecError('%s:%d: cannot parse contract line %r' % (fname, ln, body))
     return sf
 
+def _calls(e, acc):
+    if isinstance(e, tuple):
+        if e[0] == 'call' and e[1][0] == 'id':
+            acc.add(e[1][1])
+        for x in e[1:]:
+            if isinstance(x, (tuple, list)):
+                _calls(x, acc)
+    elif isinstance(e, list):
+        for x in e:
+            _calls(x, acc)
+
 def load_spec_files(paths):
     sf = SpecFile()
     for p in paths:
         with open(p) as f:
             parse_spec_text(f.read(), p, sf)
+    for name, p in sf.pures.items():
+        if p['body'] is not None:
+            acc = set()
+            _calls(p['body'].expr, acc)
+            p['rec'] = name in acc
     return sf
